@@ -223,7 +223,16 @@ type Spec struct {
 	ColdEvery int
 	// Finish is called by each worker after its last run; it may add counters.
 	Finish func(counters map[string]int64)
+	// ProcsSwarm, when set, gives worker i the environment GOMAXPROCS=ProcsSwarm[i%len]: a tuning
+	// knob of the runtime that the tree under test can read (package-level tables sized "one per
+	// P"). Results must not depend on it; the value a failure was found under is recorded in the
+	// replay file and the replay re-executes itself under the same value.
+	ProcsSwarm []int
 }
+
+// childEnv is the environment for helper processes (isolated executions, cold runs, sequence
+// replays): that of this process, which already carries the worker's GOMAXPROCS.
+func childEnv() []string { return os.Environ() }
 
 type replayFile struct {
 	Property  string   `json:"property"`
@@ -246,6 +255,8 @@ type replayFile struct {
 	SeqStep  int  `json:"sequence_step,omitempty"`
 	SeqLast  int  `json:"sequence_last,omitempty"`
 	Sequence bool `json:"sequence,omitempty"`
+	// GOMAXPROCS of the process that found the failure (engines with a ProcsSwarm only)
+	Procs int `json:"gomaxprocs,omitempty"`
 }
 
 type known struct {
@@ -772,7 +783,7 @@ func runWorker(s *Spec, tier string, seed uint64, wi, wn int, plan Plan, ks []kn
 		if strings.HasSuffix(res.fail.Class, "/stuck") {
 			// the process is poisoned (tasks blocked for ever): no minimisation, report and stop
 			rf := replayFile{Property: s.Property, Engine: s.Engine, Tier: tier, Seed: seed, Run: run, Class: res.fail.Class, Key: res.fail.Key,
-				Message: res.fail.Msg, Tape: res.rec, OrigLen: len(res.rec), TraceHash: traceHash(nil, res.obs)}
+				Message: res.fail.Msg, Tape: res.rec, OrigLen: len(res.rec), TraceHash: traceHash(nil, res.obs), Procs: procsOf(s)}
 			os.MkdirAll(replays, 0o755)
 			path := filepath.Join(replays, fmt.Sprintf("%s-%d-%d.json", s.Property, seed, run))
 			b, _ := json.MarshalIndent(rf, "", " ")
@@ -818,7 +829,7 @@ func runWorker(s *Spec, tier string, seed uint64, wi, wn int, plan Plan, ks []kn
 			fin.fail.Msg = fmt.Sprintf("[depends on state left in the process by earlier calls: reproduced by the run sequence %d, %d, ..., %d in a fresh process, not by run %d alone] ", seqFirst, seqFirst+wn, run, run) + fin.fail.Msg
 		}
 		rf := replayFile{SeqFirst: seqFirst, SeqStep: wn, SeqLast: run, Sequence: isSeq, Property: s.Property, Engine: s.Engine, Tier: tier, Seed: seed, Run: run, Class: fin.fail.Class, Key: fin.fail.Key,
-			Message: fin.fail.Msg, Tape: shr, OrigLen: len(res.rec), Shrinks: attempts, TraceHash: traceHash(fin.trace, fin.obs), Trace: fin.trace}
+			Message: fin.fail.Msg, Tape: shr, OrigLen: len(res.rec), Shrinks: attempts, TraceHash: traceHash(fin.trace, fin.obs), Trace: fin.trace, Procs: procsOf(s)}
 		os.MkdirAll(replays, 0o755)
 		path := filepath.Join(replays, fmt.Sprintf("%s-%d-%d.json", s.Property, seed, run))
 		b, _ := json.MarshalIndent(rf, "", " ")
@@ -893,6 +904,9 @@ func coordinate(s *Spec, tier string, seed uint64, workers int, plan Plan, ks []
 		c.Stdout = os.Stdout
 		c.Stderr = os.Stderr
 		c.Env = os.Environ()
+		if len(s.ProcsSwarm) > 0 {
+			c.Env = append(c.Env, fmt.Sprintf("GOMAXPROCS=%d", s.ProcsSwarm[i%len(s.ProcsSwarm)]))
+		}
 		if err := c.Start(); err != nil {
 			fmt.Fprintln(os.Stderr, "cannot start worker:", err)
 			return 2
@@ -1072,6 +1086,13 @@ func coordinate(s *Spec, tier string, seed uint64, workers int, plan Plan, ks []
 	return 0
 }
 
+func procsOf(s *Spec) int {
+	if len(s.ProcsSwarm) == 0 {
+		return 0
+	}
+	return runtime.GOMAXPROCS(0)
+}
+
 func doReplay(s *Spec, path string, ks []known) int {
 	b, err := os.ReadFile(path)
 	if err != nil {
@@ -1086,6 +1107,21 @@ func doReplay(s *Spec, path string, ks []known) int {
 	if rf.Property != s.Property {
 		fmt.Fprintf(os.Stderr, "replay file is for %s, this engine serves %s\n", rf.Property, s.Property)
 		return 2
+	}
+	if rf.Procs > 0 && runtime.GOMAXPROCS(0) != rf.Procs && os.Getenv("VERIF_REPLAY_REEXEC") == "" {
+		// the tree under test may have sized package-level state by GOMAXPROCS at start-up:
+		// replay in a process that starts with the recorded value
+		c := exec.Command(os.Args[0], os.Args[1:]...)
+		c.Stdout, c.Stderr = os.Stdout, os.Stderr
+		c.Env = append(os.Environ(), fmt.Sprintf("GOMAXPROCS=%d", rf.Procs), "VERIF_REPLAY_REEXEC=1")
+		if err := c.Run(); err != nil {
+			if ee, ok := err.(*exec.ExitError); ok {
+				return ee.ExitCode()
+			}
+			fmt.Fprintln(os.Stderr, "replay re-execution failed:", err)
+			return 2
+		}
+		return 0
 	}
 	tier := rf.Tier
 	if tier == "" {
